@@ -82,6 +82,13 @@ def tamper_job(j):
     cands = []
     for n in range(0, max_len + 1):
         cands += [list(c) for c in itertools.product(alphabet, repeat=n)]
+    # raw opcode names in place of ids: block-ending opcodes, instructions the block is split at, plain arithmetic
+    raw = ["STOP", "RETURN", "REVERT", "INVALID", "SELFDESTRUCT", "JUMP", "JUMPI", "JUMPDEST", "GAS", "LOG0", "MSTORE", "ADD", "PUSH0"]
+    shorts = [[]] + [[a] for a in alphabet]
+    for base_c in shorts + ([list(genuine)] if genuine else []):
+        for pos in range(len(base_c) + 1):
+            for r in raw:
+                cands.append(base_c[:pos] + [r] + base_c[pos:])
     if genuine:
         g = list(genuine)
         for i in range(len(g)):
@@ -114,6 +121,11 @@ def tamper_job(j):
         if A == B:
             out["accepted_identical"] += 1
             continue
+        # code behind an instruction that ends execution is dead: the rebuilt block behaves like its prefix
+        for k, (nm, _) in enumerate(B[:-1]):
+            if nm in ("STOP", "RETURN", "REVERT", "INVALID", "SELFDESTRUCT", "SUICIDE", "JUMP"):
+                B = B[:k + 1]
+                break
         r = check_equiv(A, B, 6000, kind="c11")
         if r.verdict == "equal":
             out["accepted_equivalent"] += 1
